@@ -64,6 +64,12 @@ class Gamma:
             return np.int64(k)
         if nk == "tuple":
             return (int(k), "a")
+        if nk == "descset":  # ints whose python-set iteration order is the reverse of their sorted order
+            return 8 * (7 - int(k)) + int(k)
+        if nk == "collide":  # ints that collide in small hash tables: set order depends on insertion order
+            return 8 * int(k)
+        if nk == "floatnode":
+            return float(k)
         if nk == "exotic":
             return EXOTIC[k] if k < len(EXOTIC) else f"z{k}\x1ey"
         if nk == "numstr":  # strings that look like numbers: lexicographic and numeric order differ
@@ -89,6 +95,15 @@ class Gamma:
             elif nk == "tuple":
                 if isinstance(lab, tuple) and len(lab) == 2 and lab[1] == "a":
                     return int(lab[0])
+            elif nk == "descset":
+                if isinstance(lab, (int, np.integer)) and not isinstance(lab, bool):
+                    return int(lab) % 8
+            elif nk == "collide":
+                if isinstance(lab, (int, np.integer)) and not isinstance(lab, bool) and int(lab) % 8 == 0:
+                    return int(lab) // 8
+            elif nk == "floatnode":
+                if isinstance(lab, float) and lab.is_integer():
+                    return int(lab)
             elif nk == "exotic":
                 if isinstance(lab, str):
                     return EXOTIC.index(lab) if lab in EXOTIC else int(lab[1:-2])
